@@ -75,17 +75,22 @@ def bitsVal (e : Endian) (bs : List Bool) : Nat :=
 def unaryBits (x : Nat) : List Bool := List.replicate x false ++ [true]
 
 /-- First `n` bits of `l`, zero-extended when `l` is shorter. -/
-def takeZ (n : Nat) (l : List Bool) : List Bool :=
-  l.take n ++ List.replicate (n - l.length) false
+def takeZ : Nat → List Bool → List Bool
+  | 0, _ => []
+  | n + 1, [] => false :: takeZ n []
+  | n + 1, b :: bs => b :: takeZ n bs
 
 /-! ### Canonical byte layout (C01): bit `i` of the stream lives in byte `i/8`,
     at bit `7 - i%8` (BE) or `i%8` (LE). -/
 
 def byteOfBits (e : Endian) (bs : List Bool) : Nat := bitsVal e (takeZ 8 bs)
 
-/-- Bytes of a bit list, zero padded to a byte boundary. -/
-def layout (e : Endian) (bs : List Bool) : List Nat :=
-  (List.range ((bs.length + 7) / 8)).map (fun i => byteOfBits e (bs.drop (8 * i)))
+/-- Bytes of a bit list, zero padded to a byte boundary (`fuel` ≥ number of bytes). -/
+def layoutAux (e : Endian) : Nat → List Bool → List Nat
+  | 0, _ => []
+  | fuel + 1, bs => if bs.isEmpty then [] else byteOfBits e bs :: layoutAux e fuel (bs.drop 8)
+
+def layout (e : Endian) (bs : List Bool) : List Nat := layoutAux e bs.length bs
 
 /-- The bits of a list of bytes in stream order. -/
 def bitsOfBytes (e : Endian) (bytes : List Nat) : List Bool :=
